@@ -32,6 +32,7 @@ import (
 	"github.com/attestantio/vouch/services/graffitiprovider"
 	nullmetrics "github.com/attestantio/vouch/services/metrics/null"
 	bestproposal "github.com/attestantio/vouch/strategies/beaconblockproposal/best"
+	firstproposal "github.com/attestantio/vouch/strategies/beaconblockproposal/first"
 	"github.com/attestantio/vouch/util"
 	"github.com/spf13/viper"
 )
@@ -167,6 +168,10 @@ func (g *c16Graffiti) Graffiti(_ context.Context, _ phase0.Slot, _ phase0.Valida
 		return []byte("hello"), nil
 	case "client":
 		return []byte("{{CLIENT}}"), nil
+	case "twice":
+		return []byte("{{CLIENT}}{{SLOT}}{{CLIENT}}"), nil
+	case "longclient":
+		return []byte("0123456789012345678901234567 {{CLIENT}}"), nil
 	}
 	return []byte{}, nil
 }
@@ -191,6 +196,7 @@ type c16ProposerInst struct {
 	submitter  *c16Submitter
 	auctioneer *c16Auctioneer
 	graffiti   *c16Graffiti
+	provider   *c16NodeProvider
 	s          *standardproposer.Service
 }
 
@@ -198,14 +204,17 @@ func c16NewProposerInst(ctx context.Context, first map[string]string) c16Instanc
 	viper.Set("timeout", 2*time.Second)
 	in := &c16ProposerInst{node: c16NewNode(c16NodeVersion("teku")), relay: c16NewServer(), gate: &c16Gate{}, submitter: &c16Submitter{}}
 	in.node.Gate("/eth/v3/validator/blocks/", in.gate)
-	client := c16NodeClient(ctx, in.node)
+	// the provider: the real client library behind a facade that implements (or, "absent", does not implement)
+	// the optional NodeClientProvider interface with the answer chosen per call
+	var proposals eth2client.ProposalProvider
+	proposals, in.provider = c16NewNodeProvider(ctx, in.node, "node0", "nodeclient", first["nodeclient"] == "absent")
 	accounts := mockaccountmanager.NewValidatingAccountsProvider()
 	accounts.AddAccount(1, c16Account(1))
 	params := []standardproposer.Parameter{
 		standardproposer.WithLogLevel(c16LogLevel()),
 		standardproposer.WithMonitor(nullmetrics.New()),
 		standardproposer.WithChainTime(c16NowChainTime()),
-		standardproposer.WithProposalDataProvider(client.(eth2client.ProposalProvider)),
+		standardproposer.WithProposalDataProvider(proposals),
 		standardproposer.WithValidatingAccountsProvider(accounts),
 		standardproposer.WithExecutionChainHeadProvider(mockcache.New(map[phase0.Root]phase0.Slot{}).(cache.ExecutionChainHeadProvider)),
 		standardproposer.WithProposalSubmitter(in.submitter),
@@ -242,6 +251,7 @@ func (in *c16ProposerInst) Close() {
 }
 
 func (in *c16ProposerInst) Prepare(_ int, sh map[string]string) {
+	in.provider.Prepare(sh)
 	in.node.Set("/eth/v3/validator/blocks/", c16ProposalAnswer(sh["ver"], sh["blinded"] == "y", sh["body"], false))
 	unblindVer := sh["ver"]
 	if sh["unblind"] == "wrongver" {
@@ -271,8 +281,9 @@ func (in *c16ProposerInst) Invoke(ctx context.Context, k int, sh map[string]stri
 	duty.SetRandaoReveal(c16Randao())
 	duty.SetAccount(c16Account(1))
 	before := in.submitter.count()
-	pctx, cancel := context.WithTimeout(ctx, 4*time.Second)
+	pctx, cancel := context.WithTimeout(c16WithAux(ctx, sh), 4*time.Second)
 	defer cancel()
+	in.provider.Invoked(ctx)
 	in.s.Propose(pctx, duty)
 	time.Sleep(20 * time.Millisecond) // unblinding goroutines of the proposer that lost the race
 	if in.submitter.count() == before {
@@ -292,12 +303,13 @@ func (in *c16ProposerInst) Invoke(ctx context.Context, k int, sh map[string]stri
 type c16GraffitiProposeInst struct {
 	node      *c16Server
 	submitter *c16Submitter
+	provider  *c16NodeProvider
 	s         *standardproposer.Service
 	mu        sync.Mutex
 	seen      map[uint64][]string // graffiti asked for, by slot
 }
 
-func c16NewGraffitiProposeInst(ctx context.Context, use string, provider graffitiprovider.Service) *c16GraffitiProposeInst {
+func c16NewGraffitiProposeInst(ctx context.Context, use string, absent bool, provider graffitiprovider.Service) *c16GraffitiProposeInst {
 	viper.Set("timeout", 2*time.Second)
 	in := &c16GraffitiProposeInst{node: c16NewNode(c16NodeVersion("teku")), submitter: &c16Submitter{}, seen: map[uint64][]string{}}
 	answer := c16ProposalAnswer("deneb", false, "valid", false)
@@ -309,8 +321,8 @@ func c16NewGraffitiProposeInst(ctx context.Context, use string, provider graffit
 		in.mu.Unlock()
 		return answer.Func(r)
 	}})
-	client := c16NodeClient(ctx, in.node)
-	var proposals eth2client.ProposalProvider = client.(eth2client.ProposalProvider)
+	var proposals eth2client.ProposalProvider
+	proposals, in.provider = c16NewNodeProvider(ctx, in.node, "node0", "nodeclient", absent)
 	if use == "proposebest" {
 		best, err := bestproposal.New(ctx,
 			bestproposal.WithLogLevel(c16LogLevel()),
@@ -352,15 +364,16 @@ func c16NewGraffitiProposeInst(ctx context.Context, use string, provider graffit
 	return in
 }
 
-func (in *c16GraffitiProposeInst) propose(ctx context.Context, k int) c16Res {
+func (in *c16GraffitiProposeInst) propose(ctx context.Context, k int, sh map[string]string) c16Res {
 	const rounds = 4
 	slot := c16CallSlot(k)
 	before := in.submitter.count()
+	in.provider.Invoked(ctx)
 	for i := 0; i < rounds; i++ {
 		duty := beaconblockproposer.NewDuty(slot, 7)
 		duty.SetRandaoReveal(c16Randao())
 		duty.SetAccount(c16Account(1))
-		pctx, cancel := context.WithTimeout(ctx, 4*time.Second)
+		pctx, cancel := context.WithTimeout(c16WithAux(ctx, sh), 4*time.Second)
 		in.s.Propose(pctx, duty)
 		cancel()
 	}
@@ -380,11 +393,13 @@ func (in *c16GraffitiProposeInst) propose(ctx context.Context, k int) c16Res {
 	return c16Fallback(fmt.Sprintf("%d proposals with empty graffiti", n))
 }
 
-// c16ProposalBestInst: the `best` proposal strategy over n nodes whose client name has clen characters.
+// c16ProposalBestInst: a proposal strategy (`best` or its sibling `first`) over n nodes whose client name has clen
+// characters; every node is a facade over the real client library (zz_verif_c16_aux_test.go).
 type c16ProposalBestInst struct {
-	nodes []*c16Server
-	gate  *c16Gate
-	s     *bestproposal.Service
+	nodes     []*c16Server
+	providers []*c16NodeProvider
+	gate      *c16Gate
+	s         eth2client.ProposalProvider
 }
 
 func c16NewProposalBestInst(ctx context.Context, first map[string]string) c16Instance {
@@ -401,9 +416,28 @@ func c16NewProposalBestInst(ctx context.Context, first map[string]string) c16Ins
 		node := c16NewNode(version)
 		in.nodes = append(in.nodes, node)
 		node.Set("/eth/v3/validator/blocks/", c16ProposalAnswer("deneb", false, "valid", false))
-		providers[fmt.Sprintf("node%d", i)] = c16NodeClient(ctx, node).(eth2client.ProposalProvider)
+		dim := "nodeclient"
+		if i == 1 {
+			dim = "nodeclient1"
+		}
+		provider, facade := c16NewNodeProvider(ctx, node, fmt.Sprintf("node%d", i), dim, first[dim] == "absent")
+		providers[fmt.Sprintf("node%d", i)] = provider
+		in.providers = append(in.providers, facade)
 	}
 	in.nodes[0].Gate("/eth/v3/validator/blocks/", in.gate)
+	if first["strat"] == "first" {
+		s, err := firstproposal.New(ctx,
+			firstproposal.WithLogLevel(c16LogLevel()),
+			firstproposal.WithTimeout(400*time.Millisecond),
+			firstproposal.WithClientMonitor(nullmetrics.New()),
+			firstproposal.WithProposalProviders(providers),
+		)
+		if err != nil {
+			panic("c16 harness: first proposal strategy: " + err.Error())
+		}
+		in.s = s
+		return in
+	}
 	s, err := bestproposal.New(ctx,
 		bestproposal.WithLogLevel(c16LogLevel()),
 		bestproposal.WithTimeout(400*time.Millisecond),
@@ -444,15 +478,9 @@ func (in *c16ProposalBestInst) Prepare(_ int, sh map[string]string) {
 		body = "novalues"
 	}
 	in.nodes[0].Set("/eth/v3/validator/blocks/", c16ProposalAnswer("deneb", false, body, zeroFee))
-	clen := 0
-	fmt.Sscanf(sh["clen"], "%d", &clen)
-	for _, node := range in.nodes {
-		if sh["nodeclient"] == "error" {
-			// the node stops answering the version request after the connection was established
-			node.Set("/eth/v1/node/version", c16Answer{Status: 500, Body: `{"code":500,"message":"no"}`})
-		} else {
-			node.Set("/eth/v1/node/version", c16JSON(fmt.Sprintf(`{"data":{"version":%q}}`, strings.Repeat("N", clen))))
-		}
+	// what each node answers to the node version request behind {{CLIENT}} (and whether it is up at all)
+	for _, p := range in.providers {
+		p.Prepare(sh)
 	}
 }
 
@@ -467,7 +495,15 @@ func (in *c16ProposalBestInst) Invoke(ctx context.Context, k int, sh map[string]
 		copy(graffiti[:], "vouch {{CLIENT}}")
 	case "full":
 		copy(graffiti[:], "0123456789012345678901{{CLIENT}}")
+	case "twice":
+		copy(graffiti[:], "{{CLIENT}}{{SLOT}}{{CLIENT}}")
+	case "cut":
+		copy(graffiti[:], "0123456789012345678901234{{CLIEN")
 	}
+	for _, p := range in.providers {
+		p.Invoked(ctx)
+	}
+	ctx = c16WithAux(ctx, sh)
 	resp, err := in.s.Proposal(ctx, &api.ProposalOpts{Slot: c16CallSlot(k), RandaoReveal: c16Randao(), Graffiti: graffiti})
 	time.Sleep(20 * time.Millisecond)
 	if err != nil {
